@@ -2,11 +2,15 @@
    Property theorems only (field level: a line is the list of its tab-separated
    fields; tokenisation of bytes and %.6g are on the code's side, see DESIGN 5 C08).
    Proofs live in Proofs/FormatsLemmas.v, FormatsOrder.v, FormatsText.v, FormatsSniff.v,
-   FormatsSeg.v, ChromsortLemmas.v.
+   FormatsSeg.v, ChromsortLemmas.v; extension: FormatsLib.v (decimal text, uniqueness of the
+   stable sort), FormatsGff.v, FormatsBed.v, FormatsSegIds.v, FormatsVcf.v, FnFormats.v (ties to
+   the definitions generated from the Python function bodies).
 
    Format-inherent preconditions (stated in the theorems that need them):
    * BED: a line starting with "track" is a track line and one starting with
-     "browser " a browser line, so chromosome names must not start that way;
+     "browser " a browser line, so chromosome names must not start that way; the name
+     and strand columns are rstrip()ped by the reader, so a label must not END in white
+     space (bed_gene_ok; the model now carries that rstrip, which the first version did not);
    * interval list: "@" starts a header/comment; an empty label is read as "-";
    * chr:start-end text: re_label needs the name to start with a word character
      and continue with word characters or dots; coordinates are non-negative;
@@ -18,14 +22,17 @@ From CNV Require Import Base.Prelude Base.Str.
 From CNV Require Import Model.Decimal Model.Chromsort Model.Sniff Model.Formats.
 From CNV Require Import Proofs.ChromsortLemmas Proofs.FormatsLemmas Proofs.FormatsOrder.
 From CNV Require Import Proofs.FormatsText Proofs.FormatsRewrite Proofs.FormatsSniff Proofs.FormatsAuto Proofs.FormatsSeg.
-From CNV Require Gen.Formats.
+From CNV Require Import Proofs.FormatsLib Proofs.FormatsGff Proofs.FormatsBed Proofs.FormatsSegIds Proofs.FormatsVcf.
+From CNV Require Import Proofs.FnFormats.
+From CNV Require Gen.Formats Gen.FnFormatsBed Gen.FnFormatsPicard Gen.FnFormatsSeg Gen.FnFormatsVcfsimple
+  Gen.FnFormatsVcfio Gen.FnFormatsChromsort.
 
 (* ---- conventions: textual (s, e) -> (s + off, e); off = 0 for BED and tab,
         -1 for interval list, text (C08_conventions_text), GFF, SEG, VCF, Picard ---- *)
 
 Theorem C08_conventions_bed : forall c s e rest,
   read_bed_line (c :: print_Z s :: print_Z e :: rest)
-  = Some ((c, s + 0, e), [nth 0 rest "-"%string; nth 2 rest "."%string]).
+  = Some ((c, s + 0, e), [rstrip_ws (nth 0 rest "-"%string); rstrip_ws (nth 2 rest "."%string)]).
 Proof. exact conv_bed. Qed.
 
 Theorem C08_conventions_tab : forall c s e ex,
@@ -139,6 +146,7 @@ Proof. exact roundtrip_bed3. Qed.
 
 Theorem C08_roundtrip_bed4 : forall t : list row,
   Forall (fun r => bed_name_ok (fst (fst (fst r))) = true) t ->
+  Forall (fun r => bed_gene_ok r = true) t ->
   read_bed4 (write_bed4 t) = Some (sort_rows (map (fun r => (fst r, [nth 0 (snd r) "-"%string])) t)).
 Proof. exact roundtrip_bed4. Qed.
 
@@ -201,7 +209,8 @@ Theorem C08_rewrite : forall (h : list string) (t : list row),
    = Some (write_tab h (sort_rows t))) /\
   (Forall (fun r => bed_name_ok (fst (fst (fst r))) = true) t ->
    option_map write_bed3 (read_bed3 (write_bed3 t)) = Some (write_bed3 (sort_rows t)) /\
-   option_map write_bed4 (read_bed4 (write_bed4 t)) = Some (write_bed4 (sort_rows t))) /\
+   (Forall (fun r => bed_gene_ok r = true) t ->
+    option_map write_bed4 (read_bed4 (write_bed4 t)) = Some (write_bed4 (sort_rows t)))) /\
   (Forall (fun r => interval_row_ok r = true) t ->
    option_map write_interval (read_interval (write_interval t)) = Some (write_interval (sort_rows t))) /\
   (Forall (fun r => text_row_ok r = true) t ->
@@ -227,6 +236,7 @@ Proof. exact auto_bed3. Qed.
 Theorem C08_sniff_bed4 : forall r t,
   sniff_row_ok r = true ->
   Forall (fun r => bed_name_ok (fst (fst (fst r))) = true) (r :: t) ->
+  Forall (fun r => bed_gene_ok r = true) (r :: t) ->
   sniff_lines None (write_bed4 (r :: t)) = Some (Fmt "bed") /\
   read_auto None (write_bed4 (r :: t))
   = AutoRows "bed" (sort_rows (map (fun r => (fst r, [nth 0 (snd r) "-"; "."]%string)) (r :: t))).
@@ -291,3 +301,422 @@ Example C08_roundtrip_example :
   write_interval t = [["chr2"; "11"; "100"; "+"; "A,B"]; ["chr1"; "1"; "5"; "-"; "g-1"];
                       ["chrX"; "10"; "99"; "+"; "x.y"]]%string.
 Proof. vm_compute. repeat constructor. Qed.
+
+(* ==================================================================================== *)
+(* Extension                                                                            *)
+
+(* ---- decimal text: the coordinate fields round-trip exactly ---- *)
+
+(* every integer (negative, zero, positive) is read back from its printed text; the printed
+   text is canonical (digits only after an optional '-', no leading zero, no '+', "0" for 0);
+   a canonical text is the printed form of the value it parses to (so the text itself
+   round-trips); and the left-fold value digits_val of Model/Chromsort.v is what the parser
+   computes on digit strings *)
+Theorem C08_decimal_roundtrip :
+  (forall z, parse_Z (print_Z z) = Some z) /\
+  (forall z, canonical_dec (print_Z z) = true) /\
+  (forall s, canonical_dec s = true -> parse_Z s = Some (dec_value s) /\ print_Z (dec_value s) = s) /\
+  (forall s z, canonical_dec s = true -> parse_Z s = Some z -> s = print_Z z) /\
+  (forall ds, ds <> [] -> forallb is_digit ds = true -> parse_Z (unchars ds) = Some (digits_val ds)) /\
+  (forall z, 0 <= z -> digits_val (chars (print_Z z)) = z) /\
+  (forall a b, print_Z a = print_Z b -> a = b).
+Proof.
+  exact (conj parse_print (conj print_is_canonical (conj canonical_roundtrip (conj canonical_unique
+          (conj parse_digits (conj digits_val_print print_Z_inj)))))).
+Qed.
+
+Theorem C08_decimal_rejects :
+  parse_Z "+5" = None /\ parse_Z "" = None /\ parse_Z "-" = None /\ parse_Z " 5" = None /\
+  parse_Z "5 " = None /\ parse_Z "1_000" = None /\ parse_Z "007" = Some 7 /\ parse_Z "-0" = Some 0.
+Proof. exact parse_rejects. Qed.
+
+(* a data line with canonical coordinate text is written back field for field: read_F then
+   write_F is the identity on the text of BED3/BED4, tab, interval-list, SEG and
+   chr:start-end lines *)
+Theorem C08_text_fields_roundtrip : forall c ts te,
+  canonical_dec ts = true /\ canonical_dec te = true ->
+  option_map bed3_line (read_bed_line [c; ts; te]) = Some [c; ts; te] /\
+  (forall g, rstrip_ws g = g ->
+     option_map (fun r => bed4_line (keep_extras 1 r)) (read_bed_line [c; ts; te; g]) = Some [c; ts; te; g]) /\
+  (forall ex, option_map tab_line (read_tab_row (3 + length ex) 0 1 2 (c :: ts :: te :: ex))
+              = Some (c :: ts :: te :: ex)) /\
+  (forall strand gene, gene <> EmptyString ->
+     option_map interval_line (read_interval_line [c; ts; te; strand; gene]) = Some [c; ts; te; strand; gene]) /\
+  (forall sid rest,
+     option_map (fun p => seg_line (fst p) (fst (snd p), rest))
+       (read_seg_line (4 + length rest) (sid :: c :: ts :: te :: rest))
+     = Some (sid :: c :: ts :: te :: rest)).
+Proof.
+  exact (fun c ts te H => conj (text_fields_bed3 c ts te H) (conj (fun g => text_fields_bed4 c ts te g H)
+    (conj (fun ex => text_fields_tab c ts te ex H) (conj (fun st g => text_fields_interval c ts te st g H)
+    (fun sid rest => text_fields_seg sid c ts te rest H))))).
+Qed.
+
+Theorem C08_text_label_roundtrip : forall c ts te,
+  text_name_ok c = true -> canonical_nat (chars ts) = true -> canonical_nat (chars te) = true ->
+  option_map (fun r => text_line (keep_extras 0 r)) (read_text_line (c ++ ":" ++ ts ++ "-" ++ te))
+  = Some [(c ++ ":" ++ ts ++ "-" ++ te)%string].
+Proof. exact text_fields_label. Qed.
+
+(* ---- GFF: gene label, type filter, pre-sort ---- *)
+
+Theorem C08_conventions_gff_row : forall tags c src ty s e sc st ph attr,
+  read_gff_row tags [c; src; ty; print_Z s; print_Z e; sc; st; ph; attr]
+  = Some ((c, s + -1, e), [gff_gene tags attr; st; ty]).
+Proof. exact conv_gff_row. Qed.
+
+(* the gene label is the value of the first matching tag: at the leftmost position of the
+   attribute column where a tag of the list is followed by '=' or ' ', an optional quote, a
+   value and (optional quote) ';' or the end, with the earlier alternatives failing there,
+   the label is that value -- plain or quoted *)
+Theorem C08_gff_gene : forall (before after : list string) tg pre sep v term,
+  gff_sep sep = true -> v <> [] -> forallb gff_plain v = true -> gff_term term = true ->
+  let tags := before ++ tg :: after in
+  let here := chars tg ++ sep :: v ++ term in
+  let hereq := chars tg ++ sep :: dquote :: v ++ dquote :: term in
+  ((forall i, (i < length pre)%nat -> gff_gene_at (map chars tags) (skipn i (pre ++ here)) = None) ->
+   (forall t', In t' before -> gff_try_tag (chars t') here = None) ->
+   gff_gene tags (unchars (pre ++ here)) = unchars v) /\
+  ((forall i, (i < length pre)%nat -> gff_gene_at (map chars tags) (skipn i (pre ++ hereq)) = None) ->
+   (forall t', In t' before -> gff_try_tag (chars t') hereq = None) ->
+   gff_gene tags (unchars (pre ++ hereq)) = unchars v).
+Proof. exact gff_gene_first_tag. Qed.
+
+(* conversely the label is always a leftmost, first-alternative match, and '-' without one;
+   in particular when no tag occurs in the column *)
+Theorem C08_gff_gene_spec : forall tags attr,
+  (forall g, gff_gene_search (map chars tags) (chars attr) = Some g ->
+     gff_gene tags attr = unchars g /\
+     exists pre suf, chars attr = pre ++ suf /\ gff_gene_at (map chars tags) suf = Some g /\
+       forall i, (i < length pre)%nat -> gff_gene_at (map chars tags) (skipn i (chars attr)) = None) /\
+  (gff_gene_search (map chars tags) (chars attr) = None -> gff_gene tags attr = "-"%string) /\
+  ((forall tg, In tg tags -> str_infix tg attr = false) -> gff_gene tags attr = "-"%string).
+Proof.
+  exact (fun tags attr => conj (proj1 (gff_gene_spec tags attr))
+           (conj (proj2 (gff_gene_spec tags attr)) (gff_gene_missing tags attr))).
+Qed.
+
+Theorem C08_gff_gene_examples :
+  let tags := Gen.Formats.gff_default_tags in
+  gff_gene tags "ID=gene0;Name=BRCA1;biotype=protein_coding" = "BRCA1"%string /\
+  gff_gene tags "gene_id ""ENSG01""; transcript_id ""T1""; gene_name ""TP53"";" = "ENSG01"%string /\
+  gff_gene tags "ID=x1;Parent=t1" = "-"%string /\
+  gff_gene tags "ID=x;gene=A,B-1.2;Name=other" = "A,B-1.2"%string /\
+  gff_gene tags "Name=""AB C"";gene=zz" = "zz"%string /\
+  gff_gene tags "ID=x;my_gene=Y" = "Y"%string /\
+  gff_gene tags "" = "-"%string /\
+  gff_gene ["ID"]%string "ID=x1;Name=N" = "x1"%string.
+Proof. exact gff_gene_examples. Qed.
+
+(* the regular expression and default tag the matcher was written for *)
+Theorem C08_gff_sources :
+  Gen.Formats.gff_default_tags = ["Name"; "gene_id"; "gene_name"; "gene"]%string /\
+  Gen.Formats.pat_gff_gene = "[= ]""?(?P<gene>\S+?)""?(;|$)"%string /\
+  Gen.Formats.gff_default_gene = "-"%string.
+Proof. exact (conj eq_refl (conj eq_refl eq_refl)). Qed.
+
+(* sorted; keep_type returns the unfiltered table without the rows of other types; the
+   pre-sort by chromosome string does not change the table when tied rows spell the
+   chromosome alike *)
+Theorem C08_gff_table : forall tags kt ls,
+  (forall t, read_gff_full tags kt ls = Some t -> rows_sorted t) /\
+  (forall t, read_gff_full tags None ls = Some t ->
+     read_gff_full tags kt ls = Some (filter (gff_keep kt) t) /\
+     (forall ty, kt = Some ty -> ty <> EmptyString -> Forall (fun r => gff_type r = ty) (filter (gff_keep kt) t))).
+Proof.
+  exact (fun tags kt ls => conj (read_gff_full_sorted tags kt ls) (gff_keep_type tags kt ls)).
+Qed.
+
+Theorem C08_gff_presort : forall t : list row,
+  Permutation t (sort_rows (gff_presort t)) /\ rows_sorted (sort_rows (gff_presort t)) /\
+  ((forall a b, In a t -> In b t -> rkey_of (row_region a) = rkey_of (row_region b) ->
+      fst (fst (fst a)) = fst (fst (fst b))) ->
+   sort_rows (gff_presort t) = sort_rows t).
+Proof. exact gff_presort_harmless. Qed.
+
+(* ---- BED variants ---- *)
+
+(* the column-count rule: 3 columns -> ('-', '.'); 4 or 5 -> (name, '.'); 6 and more ->
+   (name, strand); name and strand are rstrip()ped; nothing else is looked at *)
+Theorem C08_bed_columns : forall c s e g sc st more,
+  read_bed_line [c; print_Z s; print_Z e] = Some ((c, s + 0, e), ["-"; "."]%string) /\
+  read_bed_line [c; print_Z s; print_Z e; g] = Some ((c, s + 0, e), [rstrip_ws g; "."%string]) /\
+  read_bed_line [c; print_Z s; print_Z e; g; sc] = Some ((c, s + 0, e), [rstrip_ws g; "."%string]) /\
+  read_bed_line (c :: print_Z s :: print_Z e :: g :: sc :: st :: more)
+  = Some ((c, s + 0, e), [rstrip_ws g; rstrip_ws st]).
+Proof. exact bed_columns. Qed.
+
+Theorem C08_bed_extra_columns : forall c s e g sc st more,
+  read_bed_line (c :: s :: e :: g :: sc :: st :: more) = read_bed_line [c; s; e; g; sc; st] /\
+  read_bed_line [c; s; e; g; sc] = read_bed_line [c; s; e; g] /\
+  (forallb is_nonspace (chars g) = true -> rstrip_ws g = g).
+Proof.
+  exact (fun c s e g sc st more =>
+           conj (proj1 (bed_extra_columns_ignored c s e g sc st more))
+             (conj (proj2 (bed_extra_columns_ignored c s e g sc st more)) (rstrip_nonspace g))).
+Qed.
+
+(* a leading browser line and a leading track line are skipped, reading stops at the next
+   track line; the table does not depend on them *)
+Theorem C08_bed_headers : forall (body : list line) brw trk more,
+  Forall bed_plain_line body -> line_starts "browser " brw = true -> line_starts "track" trk = true ->
+  read_bed (brw :: trk :: body) = read_bed body /\ read_bed (trk :: body) = read_bed body /\
+  read_bed (brw :: body) = read_bed body /\
+  read_bed (brw :: trk :: body ++ trk :: more) = read_bed body /\
+  read_bed3 (brw :: trk :: body) = read_bed3 body /\ read_bed4 (brw :: trk :: body) = read_bed4 body.
+Proof. exact read_bed_headers. Qed.
+
+(* the generic "bed" writer keeps every column; read_bed finds name and strand in columns 4 and 6 *)
+Theorem C08_roundtrip_bed : forall t : list row,
+  Forall (fun r => bed_name_ok (fst (fst (fst r))) = true) t ->
+  read_bed (write_bed t)
+  = Some (sort_rows (map (fun r => (fst r, [rstrip_ws (nth 0 (snd r) "-"%string);
+                                            rstrip_ws (nth 2 (snd r) "."%string)])) t)).
+Proof. exact roundtrip_bed. Qed.
+
+Theorem C08_roundtrip_bed6 : forall t : list row,
+  Forall (fun r => bed_name_ok (fst (fst (fst r))) = true) t ->
+  Forall (fun r => exists g sc st, snd r = [g; sc; st] /\ rstrip_ws g = g /\ rstrip_ws st = st) t ->
+  read_bed (write_bed t)
+  = Some (sort_rows (map (fun r => (fst r, [nth 0 (snd r) "-"%string; nth 2 (snd r) "."%string])) t)).
+Proof. exact roundtrip_bed6. Qed.
+
+(* ---- natural order: total preorder, ranking table, uniqueness of the sort ---- *)
+
+Theorem C08_natural_order_preorder :
+  (forall a, name_leb a a = true) /\
+  (forall a b c, name_leb a b = true -> name_leb b c = true -> name_leb a c = true) /\
+  (forall a b, name_leb a b = true \/ name_leb b a = true) /\
+  (forall a b, name_leb a b = true /\ name_leb b a = true <-> chrom_key a = chrom_key b) /\
+  (forall a b, key_lt a b <-> name_leb a b = true /\ name_leb b a = false).
+Proof. exact name_preorder. Qed.
+
+Theorem C08_row_order_preorder :
+  (forall a : row, region_leb row_region a a = true) /\
+  (forall a b c : row, region_leb row_region a b = true -> region_leb row_region b c = true ->
+                       region_leb row_region a c = true) /\
+  (forall a b : row, region_leb row_region a b = true \/ region_leb row_region b a = true) /\
+  (forall a b : row, region_leb row_region a b = true /\ region_leb row_region b a = true
+                     <-> rkey_of (row_region a) = rkey_of (row_region b)).
+Proof. exact row_preorder. Qed.
+
+Theorem C08_natural_order_ranking :
+  (forall cs, has_chr_prefix cs = false -> chrom_key_chars cs = key_body cs) /\
+  (forall a b c cs, lower [a; b; c] = chr_prefix -> chrom_key_chars (a :: b :: c :: cs) = key_body cs) /\
+  (forall ds, forallb is_digit ds = true -> key_body ds = (digits_val ds, EmptyString)) /\
+  key_body ["X"%char] = (1000, "X"%string) /\ key_body ["Y"%char] = (1000, "Y"%string) /\
+  (forall ds c, forallb is_digit ds = true -> is_digit c = false -> is_XY (ds ++ [c]) = false ->
+     key_body (ds ++ [c]) = (2000 + digits_val ds, unchars [c])) /\
+  (forall ds c c' rest, forallb is_digit ds = true -> is_digit c = false ->
+     key_body (ds ++ c :: c' :: rest) = (3000 + digits_val ds, unchars (c :: c' :: rest))) /\
+  Gen.Formats.sorter_rank_xy = 1000 /\ Gen.Formats.sorter_rank_single = 2000 /\
+  Gen.Formats.sorter_rank_long = 3000 /\ Gen.Formats.sorter_xy_names = ["X"; "Y"]%string.
+Proof. exact ranking_table. Qed.
+
+Theorem C08_natural_order_examples :
+  chrom_key "chr1" = (1, "")%string /\ chrom_key "2" = (2, "")%string /\ chrom_key "chr10" = (10, "")%string /\
+  chrom_key "chr22" = (22, "")%string /\ chrom_key "chrX" = (1000, "X")%string /\ chrom_key "Y" = (1000, "Y")%string /\
+  chrom_key "chrM" = (2000, "M")%string /\ chrom_key "chrMT" = (3000, "MT")%string /\
+  chrom_key "chrUn_gl000211" = (3000, "Un_gl000211")%string /\
+  chrom_key "chr1_gl000191_random" = (3001, "_gl000191_random")%string /\
+  chrom_key "GL000192.1" = (3000, "GL000192.1")%string /\ chrom_key "CHR7" = (7, "")%string /\
+  chrom_key "chrx" = (2000, "x")%string /\ chrom_key "chr" = (0, "")%string /\ chrom_key "007" = (7, "")%string.
+Proof. exact ranking_examples. Qed.
+
+Theorem C08_natural_order_human :
+  stable_sort name_leb (rev human_names) = human_names /\
+  stable_sort name_leb
+    ["chr1"; "chr10"; "chr11"; "chr12"; "chr13"; "chr14"; "chr15"; "chr16"; "chr17"; "chr18"; "chr19";
+     "chr2"; "chr20"; "chr21"; "chr22"; "chr3"; "chr4"; "chr5"; "chr6"; "chr7"; "chr8"; "chr9";
+     "chrM"; "chrX"; "chrY"]%string = human_names.
+Proof. exact human_order. Qed.
+
+(* decimal names sort by value: chr9 < chr10 < chr100, 9 < chr10, ... *)
+Theorem C08_natural_order_decimal : forall (p1 p2 : list ascii) a b,
+  chr_or_none p1 -> chr_or_none p2 -> 0 <= a < b ->
+  ckey_ltb (chrom_key_chars (p1 ++ chars (print_Z a))) (chrom_key_chars (p2 ++ chars (print_Z b))) = true.
+Proof. exact natural_order_decimal. Qed.
+
+(* the sorted table is unique: whatever stable sorting algorithm the library uses, a result
+   that is sorted and keeps tied rows in input order is the model's; and dropping rows
+   commutes with sorting *)
+Theorem C08_sort_unique : forall t l : list row,
+  rows_sorted l ->
+  (forall z, filter (equivb (region_leb row_region) z) l = filter (equivb (region_leb row_region) z) t) ->
+  l = sort_rows t.
+Proof. exact sort_rows_unique. Qed.
+
+Theorem C08_sort_filter : forall (p : row -> bool) t, filter p (sort_rows t) = sort_rows (filter p t).
+Proof. exact sort_rows_filter. Qed.
+
+(* ---- SEG with enumerated chromosome ids ---- *)
+
+(* the i-th distinct chromosome of the first sample is written as i+1, and reading the file
+   through the inverse map (import-seg -c "1:name1,2:name2,...") returns every sample *)
+Theorem C08_seg_ids : forall (first : list row),
+  (forall n c, nth_error (first_names first) n = Some c ->
+     lookup c (create_chrom_ids first) = print_Z (1 + Z.of_nat n)) /\
+  (forall c, In c (map (fun r : row => fst (fst (fst r))) first) ->
+     lookup (lookup c (create_chrom_ids first)) (seg_ids_inverse first) = c).
+Proof. exact (fun first => conj (ids_are_positions first) (ids_roundtrip first)). Qed.
+
+Theorem C08_roundtrip_seg_ids : forall probes samples,
+  seg_ok probes samples -> ids_cover samples ->
+  let inv := match samples with [] => [] | s :: _ => seg_ids_inverse (snd s) end in
+  parse_seg_names inv "" (write_seg_ids probes samples)
+  = Some (map (fun sr => (fst sr, map add_gene (snd sr))) samples) /\
+  import_seg_names inv "" (write_seg_ids probes samples)
+  = Some (map (fun sr => (fst sr, sort_rows (map add_gene (snd sr)))) samples).
+Proof. exact roundtrip_seg_ids. Qed.
+
+Example C08_seg_ids_example :
+  let s : list (string * list row) :=
+    [("T1", [(("chr2", 10, 100), ["0.5"]); (("chr1", 0, 5), ["-1.25"]); (("chr2", 200, 300), ["0"])]);
+     ("N2", [(("chr1", 9, 99), ["0.1"])])]%string in
+  write_seg_ids false s
+  = [["ID"; "chrom"; "loc.start"; "loc.end"; "seg.mean"];
+     ["T1"; "1"; "11"; "100"; "0.5"]; ["T1"; "2"; "1"; "5"; "-1.25"]; ["T1"; "1"; "201"; "300"; "0"];
+     ["N2"; "2"; "10"; "99"; "0.1"]]%string /\
+  seg_ids_inverse (snd (hd (EmptyString, []) s)) = [("1", "chr2"); ("2", "chr1")]%string.
+Proof. exact seg_ids_example. Qed.
+
+(* ---- Picard per-target table and VCF record ends ---- *)
+
+Theorem C08_conventions_picard_full : forall c s e len name gc cov norm,
+  read_picardhs_full_line [c; print_Z s; print_Z e; len; name; gc; cov; norm]
+  = Some ((c, s + -1, e), [name; gc; cov; norm]).
+Proof. exact conv_picardhs_full. Qed.
+
+Theorem C08_roundtrip_picardhs : forall (hdr : line) (t : list row),
+  read_picardhs (hdr :: write_picardhs_coords t)
+  = Some (sort_rows (map (fun r => (fst r, [nth 0 (snd r) EmptyString])) t)) /\
+  Forall2 (fun r f => nth 3 f EmptyString = print_Z (snd (fst r) - snd (fst (fst r)))) t (write_picardhs_coords t).
+Proof. exact roundtrip_picardhs. Qed.
+
+(* vcfio (pysam): start = POS - 1 and, where pysam offers no END, end = start + len(ALT):
+   a one-base substitution at POS is [POS-1, POS); with END it is END *)
+Theorem C08_vcf_end_vcfio : forall c p id ref alt rest,
+  (forall posn e, vcfio_get_end (Some e) posn alt = e /\ vcfio_get_end None posn alt = posn + slen alt) /\
+  (forallb (fun x => negb (Ascii.eqb x ","%char)) (chars alt) = true ->
+   alt <> "."%string -> alt <> "<NON_REF>"%string ->
+   read_vcfio_line None (c :: print_Z p :: id :: ref :: alt :: rest)
+   = Some [((c, p + -1, p + -1 + slen alt), [ref; alt])]).
+Proof.
+  exact (fun c p id ref alt rest =>
+           conj (fun posn e => vcfio_get_end_spec posn alt e) (conv_vcfio_line c p id ref alt rest)).
+Qed.
+
+(* vcf-simple / vcf-sites: start = POS - 1; the end is the first END=n of the INFO column,
+   else start + max(0, len(ALT) - len(REF)) *)
+Theorem C08_vcf_end_simple : forall start ref alt,
+  (forall info, str_infix "END=" info = false ->
+     vcf_simple_end start ref alt info = Some (start + Z.max 0 (slen alt - slen ref))) /\
+  (forall pre n rest,
+     (forall i, (i < length (chars pre))%nat ->
+        prefixb (chars "END=") (skipn i (chars pre ++ chars "END=" ++ chars (print_Z n) ++ rest)) = false) ->
+     gff_term rest = true -> n <> -1 ->
+     vcf_simple_end start ref alt (unchars (chars pre ++ chars "END=" ++ chars (print_Z n) ++ rest)) = Some n) /\
+  (forall off c p id q f info rest e, vcf_simple_end (p + off) ref alt info = Some e ->
+     read_vcf_simple_row off (c :: print_Z p :: id :: ref :: alt :: q :: f :: info :: rest)
+     = Some ((c, p + off, e), [ref; alt])).
+Proof.
+  exact (fun start ref alt =>
+           conj (vcf_simple_end_no_END start ref alt)
+             (conj (vcf_simple_end_END start ref alt)
+                (fun off c p id q f info rest e => conv_vcf_simple_row off c p id ref alt q f info rest e))).
+Qed.
+
+(* observation (not a clause of the property text, which fixes only the start shift): these
+   two readers give every substitution an EMPTY interval, end = start *)
+Theorem C08_vcf_simple_snv_empty : forall start ref alt info,
+  str_infix "END=" info = false -> slen alt = slen ref ->
+  vcf_simple_end start ref alt info = Some start.
+Proof. exact vcf_simple_snv_empty. Qed.
+
+Theorem C08_vcf_end_examples :
+  vcf_simple_end 99 "A" "G" "." = Some 99 /\
+  vcf_simple_end 199 "ACG" "A" "." = Some 199 /\
+  vcf_simple_end 299 "A" "ACG,AT" "." = Some 304 /\
+  vcf_simple_end 399 "A" "<DEL>" "SVTYPE=DEL;END=500;CIEND=-5,5" = Some 500 /\
+  vcf_simple_end 399 "A" "<DEL>" "CIEND=-5,5;END=500" = None /\
+  vcf_simple_end 399 "A" "G" "END=-1" = Some 399.
+Proof. exact vcf_simple_end_examples. Qed.
+
+(* every new reader's table is sorted too *)
+Theorem C08_sorted_more : forall ls : list line,
+  (forall off t, read_vcf_simple_rows off ls = Some t -> rows_sorted t) /\
+  (forall t, read_picardhs_full ls = Some t -> rows_sorted t) /\
+  (forall lse t, read_vcfio lse = Some t -> rows_sorted t).
+Proof.
+  exact (fun ls => conj (fun off t => read_vcf_simple_rows_sorted off ls t)
+           (conj (read_picardhs_full_sorted ls) read_vcfio_sorted)).
+Qed.
+
+(* ---- auto-detection with header lines; literals of the VCF end rules ---- *)
+
+(* blank, browser and track lines are skipped by the detection; an empty file (or one with
+   nothing but a track line) is read as an empty BED3 table; a BED table under a browser and
+   a track line is detected and read to the same table *)
+Theorem C08_sniff_skips_headers :
+  (forall hint (f : line) (rest : list line),
+     blank_line f = true \/ line_starts "track" f = true \/ line_starts "browser " f = true ->
+     sniff_lines hint (f :: rest) = sniff_lines hint rest) /\
+  (forall trk, line_starts "track" trk = true ->
+     read_auto None [] = AutoRows "bed3" [] /\ read_auto None [trk] = AutoRows "bed3" []) /\
+  (forall r t brw trk,
+     sniff_row_ok r = true ->
+     Forall (fun r => bed_name_ok (fst (fst (fst r))) = true) (r :: t) ->
+     line_starts "browser " brw = true -> line_starts "track" trk = true ->
+     sniff_lines None (brw :: trk :: write_bed3 (r :: t)) = Some (Fmt "bed") /\
+     read_auto None (brw :: trk :: write_bed3 (r :: t))
+     = AutoRows "bed" (sort_rows (map (fun r => (fst r, ["-"; "."]%string)) (r :: t)))).
+Proof. exact (conj sniff_skip (conj read_auto_blank auto_bed3_with_headers)). Qed.
+
+(* the literals of vcfsimple.parse_end_from_info / set_ends and vcfio._parse_records the
+   model was written for *)
+Theorem C08_vcf_sources :
+  Gen.Formats.vcf_end_key = "END="%string /\ Gen.Formats.vcf_end_missing = -1 /\
+  Gen.Formats.vcf_end_clip = 0 /\ Gen.Formats.vcf_nonref = "<NON_REF>"%string /\
+  Gen.Formats.off_read_vcfio_after_pysam = 0.
+Proof. exact (conj eq_refl (conj eq_refl (conj eq_refl (conj eq_refl eq_refl)))). Qed.
+
+(* ---- second tie: definitions translated from the function BODIES (tools/fnspecs/formats.py) ---- *)
+
+(* bedio.read_bed._parse_line: the generated column rule (gene = fields[3].rstrip() if
+   len(fields) >= 4 else '-'; strand = fields[5].rstrip() if len(fields) >= 6 else '.')
+   computes the extras of the model's reader *)
+Theorem C08_source_bed_columns : forall (c s e : string) (rest : line) (s' e' : Z),
+  parse_Z s = Some s' -> parse_Z e = Some e' ->
+  let fields := c :: s :: e :: rest in
+  let p := Gen.FnFormatsBed.fn_bed_gene_strand (Z.min 7 (Z.of_nat (length fields)))
+             (rstrip_ws (nth 3 fields EmptyString)) (rstrip_ws (nth 5 fields EmptyString)) in
+  read_bed_line fields = Some ((c, s' + Gen.Formats.off_read_bed, e'), [fst p; snd p]).
+Proof. exact fn_bed_columns. Qed.
+
+(* the `start -= 1` / `start += 1` statements of read_interval, read_picard_hs,
+   write_interval, parse_seg, read_vcf_simple, read_vcf_sites *)
+Theorem C08_source_start_offsets : forall s : Z,
+  Gen.FnFormatsPicard.fn_read_interval_start s = s + -1 /\
+  Gen.FnFormatsPicard.fn_read_picardhs_start s = s + -1 /\
+  Gen.FnFormatsPicard.fn_write_interval_start s = s + 1 /\
+  Gen.FnFormatsSeg.fn_parse_seg_start s = s + -1 /\
+  Gen.FnFormatsVcfsimple.fn_read_vcf_simple_start s = s + -1 /\
+  Gen.FnFormatsVcfsimple.fn_read_vcf_sites_start s = s + -1 /\
+  Gen.FnFormatsPicard.fn_read_interval_start (Gen.FnFormatsPicard.fn_write_interval_start s) = s.
+Proof.
+  exact (fun s => match fn_start_offsets s with
+                  | conj a (conj b (conj c (conj d (conj e f)))) =>
+                      conj a (conj b (conj c (conj d (conj e (conj f (fn_interval_inverse s))))))
+                  end).
+Qed.
+
+Theorem C08_source_get_end : forall posn (has_end : bool) info_end alt,
+  Gen.FnFormatsVcfio.fn_get_end posn has_end info_end (slen alt)
+  = vcfio_get_end (if has_end then Some info_end else None) posn alt.
+Proof. exact fn_get_end_eq. Qed.
+
+Theorem C08_source_sorter_nums : forall ds : list ascii,
+  forallb is_digit ds = true ->
+  Gen.FnFormatsChromsort.fn_sorter_nums (unchars ds)
+    (match parse_Z (unchars ds) with Some z => z | None => 0 end) = digits_val ds.
+Proof. exact fn_sorter_nums_eq. Qed.
